@@ -12,6 +12,7 @@ from __future__ import annotations
 
 import itertools
 import json
+import re
 
 from mc.common import Result, h64
 from mc import fp, prog
@@ -90,6 +91,7 @@ def expand(chunk):
         for d in fp.CTX:
             for kind in ("create", "create_as", "drop", "create_default"):
                 yield {"ddl": kind, "d": d}
+            yield {"factory": True, "d": d}
         return
     n = chunk["n"]
     for path in itertools.product(CONSTRUCTS, repeat=n):
@@ -202,6 +204,47 @@ def conformance(toks, d, leaf, inner_cls, sql):
     return bad
 
 
+def values_misaligned(inl, par, vals):
+    """inline and parameterised token streams walked in parallel: where the parameterised one has a placeholder the inline one has
+    the literal of the value at that index of the list.  -> description of the first mismatch, or None (aligned / not comparable)"""
+    i = j = k = 0
+    while j < len(par):
+        p = par[j]
+        if p.kind != "PAR":
+            if i >= len(inl) or (inl[i].kind, inl[i].value) != (p.kind, p.value):
+                return None  # the streams differ structurally (e.g. an array): not comparable token by token
+            i += 1
+            j += 1
+            continue
+        if k >= len(vals) or i >= len(inl):
+            return None
+        v = vals[k]
+        k += 1
+        j += 1
+        neg = False
+        if inl[i].kind == "OP" and inl[i].text == "-":
+            neg = True
+            i += 1
+        if i >= len(inl):
+            return None
+        t = inl[i]
+        i += 1
+        if isinstance(v, bool) or v is None or not isinstance(v, (int, float, str)):
+            continue
+        if isinstance(v, str):
+            if t.kind != "STR":
+                return None
+            if t.value != v:
+                return "placeholder %d stands where the inline text has %r but the value list has %r" % (k, t.value, v)
+        else:
+            if t.kind != "NUM":
+                return None
+            got = -t.value if neg else t.value
+            if got != v:
+                return "placeholder %d stands where the inline text has %r but the value list has %r" % (k, got, v)
+    return None
+
+
 def run_ddl(case, res):
     from pypika_tortoise import Table
     from pypika_tortoise.queries import Column
@@ -242,10 +285,46 @@ def run_ddl(case, res):
                 res.violate("C08|ddl|string-escape|create", "DEFAULT string is not escaped for MySQL", dialect=d, sql=sql)
 
 
+def run_factory(case, res):
+    """tables handed out by <Dialect>Query.Table / .Tables carry the dialect class: statements started from any of them
+    (select / update / insert on the table) render exactly like the same statement started from the dialect class"""
+    from pypika_tortoise import Table
+    from pypika_tortoise.queries import make_tables
+
+    d = case["d"]
+    Q = fp.QCLS[d]
+    made = {"Table": [Q.Table("fa")], "Tables1": Q.Tables("fa"), "Tables3": Q.Tables("fa", "fb", ("fc", "calias")),
+            "Tables4_schema": Q.Tables("fa", "fb", "fc", "fd", schema="sch"), "make_tables": make_tables("fa", "fb", "fc", query_cls=Q)}
+    res.nontrivial = 1
+    for how, tabs in made.items():
+        for i, t in enumerate(tabs):
+            ref_t = Table(t._table_name, schema=t._schema, alias=t.alias)
+            pairs = [("select", lambda x: x.select(x.c1, "c2").where(x.c3 == "v\\'").limit(2), lambda x: Q.from_(x).select(x.c1, "c2").where(x.c3 == "v\\'").limit(2)),
+                     ("update", lambda x: x.update().set("c1", True).where(x.c2 == 1), lambda x: Q.update(x).set("c1", True).where(x.c2 == 1)),
+                     ("insert", lambda x: x.insert(1, "s", False), lambda x: Q.into(x).insert(1, "s", False))]
+            for name, via_table, via_class in pairs:
+                res.transitions += 2
+                try:
+                    a, b = via_table(t), via_class(ref_t)
+                    got = (str(a), a.get_sql(), fp.vrepr(a.get_parameterized_sql()[1]), a.get_parameterized_sql()[0])
+                    want = (str(b), b.get_sql(), fp.vrepr(b.get_parameterized_sql()[1]), b.get_parameterized_sql()[0])
+                except Exception as e:
+                    res.violate("C08|factory|raises|%s" % type(e).__name__, "statement from a factory-made table raised", dialect=d, how=how, index=i, stmt=name)
+                    continue
+                res.outcomes.append(h64(repr(got)))
+                if got != want:
+                    res.violate("C08|factory|%s|%s" % (re.sub(r"[0-9].*$", "", how), "first" if i == 0 else "later"),
+                                "a statement started from table %d of %s.%s does not render like the one started from the %s query class" % (i, Q.__name__, how, d),
+                                dialect=d, how=how, index=i, stmt=name, got=got[0], want=want[0], got_param=got[3], want_param=want[3])
+
+
 def run_case(case):
     res = Result()
     if "ddl" in case:
         run_ddl(case, res)
+        return res
+    if "factory" in case:
+        run_factory(case, res)
         return res
     leaf, path, inner_cls = case["leaf"], case["path"], case["inner"]
     res.states.append(h64(json.dumps([leaf, path, inner_cls])))
@@ -279,6 +358,7 @@ def run_case(case):
                             "for another dialect (%s)" % other, dialect=d, leaf=leaf, path=path, inner=inner_cls, fresh=b_, after=a_)
         except Exception:
             pass
+        inline_toks = None
         for param in (False, True):
             res.transitions += 1
             try:
@@ -309,6 +389,13 @@ def run_case(case):
                 if n_par != len(vals):
                     res.violate("C08|placeholder-count|%s|%s|%s" % (d, innermost(path), inner_cls), "placeholders and values differ in number",
                                 dialect=d, leaf=leaf, path=path, sql=sql, values=fp.vrepr(vals))
+            if not param:
+                inline_toks = toks
+            elif vals is not None and inline_toks is not None:
+                mis = values_misaligned(inline_toks, toks, list(vals))
+                if mis:
+                    res.violate("C08|values-misaligned|%s|%s" % (d, leaf), "the parameter list does not follow the order of the placeholders: " + mis,
+                                dialect=d, leaf=leaf, path=path, inner=inner_cls, sql=sql, values=fp.vrepr(vals))
             if leaf in NEUTRAL:
                 streams[(d, param)] = strip_setop_parens(norm_stream(toks, d))
     # (2) cross-dialect identity for the neutral subset
